@@ -1,6 +1,7 @@
 package p2p
 
 import (
+	"bytes"
 	"crypto/cipher"
 	"encoding/binary"
 	"io"
@@ -92,6 +93,11 @@ func NewHandshake(conn net.Conn, meta *lib.PeerMeta, privateKey crypto.PrivateKe
 	peerPublicKey, err := crypto.NewPublicKeyFromBytes(peerSig.PublicKey)
 	if err != nil {
 		return nil, ErrInvalidPublicKey(err)
+	}
+	// both sides sign the same challenge: a peer that presents this node's own identity is sending our own proof back to us
+	// and proves possession of nothing (no other party holds this key)
+	if bytes.Equal(peerSig.PublicKey, privateKey.PublicKey().Bytes()) {
+		return nil, ErrFailedChallenge()
 	}
 	// verify the peer signature to confirm the identity
 	if !peerPublicKey.VerifyBytes(challenge[:], peerSig.Signature) {
